@@ -225,8 +225,26 @@ pub fn log_emission(ev: &Event) {
             EMIT_LOG.lock().unwrap().push((*tag, *val));
         }
     }
+    if FREE_LOG_ON.load(Ordering::Relaxed) {
+        if let Event::Out { tag, val, .. } = ev {
+            FREE_LOG.lock().unwrap().push((slot(), false, *tag, *val, 0));
+        }
+    }
 }
 pub static UPDATES: AtomicU64 = AtomicU64::new(0);
+
+/// Request log (off by default), the effect-side twin of the emission log: every shell request a
+/// script really makes, recorded where the API sends it (a notification at the call, a one-shot
+/// or stream request at the first poll of its future), and every event, both with the host slot
+/// that was running. (slot, is_effect, site-or-tag, arg-or-val, kind)
+pub static FREE_LOG_ON: AtomicBool = AtomicBool::new(false);
+pub static FREE_LOG: Mutex<Vec<(u32, bool, u32, u64, u8)>> = Mutex::new(Vec::new());
+
+pub fn log_request(site: u32, arg: u64, kind: u8) {
+    if FREE_LOG_ON.load(Ordering::Relaxed) {
+        FREE_LOG.lock().unwrap().push((slot(), true, site, arg, kind));
+    }
+}
 
 #[derive(Default)]
 pub struct Model {
